@@ -158,7 +158,8 @@ def _error_paths(t: int, nul: int, fail: int, cfg: int) -> bool:
 
 
 MESSAGES = ("boom", "", "é\"\\\n", "x" * 300)
-STAGES = ("parse", "validate", "operation-selection", "variable-coercion", "resolver-error", "non-null", "list-item", "float-nan", "float-inf", "resolver-error-ext")
+STAGES = ("parse", "validate", "operation-selection", "variable-coercion", "resolver-error", "non-null", "list-item", "float-nan", "float-inf", "resolver-error-ext",
+          "variable-coercion-multi", "validate-multi-node", "validate-multi-error")
 
 
 def failure_schema(msg, ext):
@@ -172,12 +173,15 @@ def failure_schema(msg, ext):
     return Schema(q)
 
 
-def _failures(stage: int, m: int, cfg: int, ext: bool) -> bool:
+def _failures(stage: int, m: int, cfg: int, ext: bool, ast: bool = False) -> bool:
     """
     pre: 0 <= stage < len(STAGES) and 0 <= m < len(MESSAGES) and 0 <= cfg <= 1
     post: _
     """
     ST, MSG, C = pick(stage, STAGES), pick(m, MESSAGES), concrete_int(cfg, 0, 1)
+    AST = True if ast else False
+    if AST and ST == "parse":
+        return result(True, False)
     EXT = {"code": 7, "nested": {"k": [1, "two"]}} if ext else None
     with untraced():
         schema = failure_schema(MSG, EXT)
@@ -194,14 +198,18 @@ def _failures(stage: int, m: int, cfg: int, ext: bool) -> bool:
             "list-item": ("{ l { x nn bad } }", None, None, True),
             "float-nan": ("{ f fs a }", None, None, True),
             "float-inf": ("{ f fs a }", None, None, True),
+            "variable-coercion-multi": ("query ($v: Boolean!, $w: Boolean!) { a @skip(if: $v) s @include(if: $w) l { x @skip(if: $v) } o @include(if: $w) { x } }", {}, None, None),
+            "validate-multi-node": ("{ a\n a: s\n o { x: nn\n  x } }", None, None, False),
+            "validate-multi-error": ("{ nope a { x }\n ...Missing }\nfragment Unused on Query { a }", None, None, False),
         }[ST]
         if ST == "variable-coercion":
             query = "query ($v: Int!) { a b: a @skip(if: false) }"
         kw = dict(variables=variables, operation_name=opname, root=root)
+        document = parse(query) if AST else query           # the request may also arrive as an already parsed document
         if C == 0:
-            res = graphql_blocking(schema, query, **kw)
+            res = graphql_blocking(schema, document, **kw)
         else:
-            res = process_graphql_query(schema, query, executor_cls=Executor, **kw)
+            res = process_graphql_query(schema, document, executor_cls=Executor, **kw)
         resp = res.response()
         problem = check_response(resp, query, expect_data, allow_nan=ST.startswith("float") and known.c10_nonfinite_floats())
         if not problem and expect_data and not ST.startswith("float"):
@@ -287,9 +295,10 @@ CONDITIONS = [
     ),
     Cond(
         name="failures", fn=_failures, quick=60, thorough=120,
-        bound="10 failure stages (parse, validate, operation selection, variable coercion, resolver error, non-null, list item, NaN, infinities, extensions) x 4 resolver-error messages (incl. empty, quotes/backslash/newline, long) x 2 executors x extensions on/off",
-        symbolic={"stage": "choice", "m": "choice: message", "cfg": "choice: BlockingExecutor / Executor", "ext": "choice"},
-        witness={"stage": 4, "m": 0, "cfg": 0, "ext": False},
+        bound="13 failure stages (parse, validate, operation selection, variable coercion with one / several errors, validation errors with several nodes / several errors over several lines, resolver error, non-null, list item, "
+              "NaN, infinities, extensions) x 4 resolver-error messages (incl. empty, quotes/backslash/newline, long) x 2 executors x extensions on/off x request given as text or as a parsed document",
+        symbolic={"stage": "choice", "m": "choice: message", "cfg": "choice: BlockingExecutor / Executor", "ext": "choice", "ast": "choice: text / parsed document"},
+        witness={"stage": 4, "m": 0, "cfg": 0, "ext": False, "ast": False},
     ),
     Cond(
         name="render_kernel", fn=_render_kernel, quick=100, thorough=600, per_path=30,
